@@ -9,15 +9,28 @@ from .common import BUILD, REPO, VERIF, cache_get, cache_put, ensure_dirs, hash_
 
 KANI_DIR = os.path.join(BUILD, "kani")
 TARGET = os.path.join(KANI_DIR, "target")
-PLAYBACK_RS = os.path.join(KANI_DIR, "playback_tests.rs")
+# the in-crate module includes this fixed path (see kani/incrate/mod.rs)
+PLAYBACK_RS = os.path.join(VERIF, "build", "kani", "playback_tests.rs")
 MOD_PREFIX = "verif_kani::"
 ENV = {"CARGO_NET_OFFLINE": "true", "CARGO_TERM_COLOR": "never"}
 
 
-def inputs_hash():
+_COMMON = ["spec.rs", "state.rs", "h_arena.rs"]  # every harness module imports helpers from these
+
+
+def inputs_hash(harness=None):
+    """Content hash of everything a harness verdict depends on: the repository sources, tool version, this
+    parser, the shared in-crate files and the harness' own module file."""
     ver = run(["cargo", "kani", "--version"])[1] + sha(open(os.path.abspath(__file__)).read())
-    return sha(hash_tree([os.path.join(REPO, "src"), os.path.join(REPO, "Cargo.toml"), os.path.join(REPO, "Cargo.lock"),
-                          os.path.join(VERIF, "kani")]) + ver)
+    inc = os.path.join(VERIF, "kani", "incrate")
+    files = [os.path.join(inc, f) for f in _COMMON]
+    if harness:
+        own = os.path.join(inc, harness.split("::")[0] + ".rs")
+        if own not in files:
+            files.append(own)
+    else:
+        files = [inc]
+    return sha(hash_tree([os.path.join(REPO, "src"), os.path.join(REPO, "Cargo.toml"), os.path.join(REPO, "Cargo.lock")] + files) + ver)
 
 
 def ensure_playback_file():
@@ -43,7 +56,10 @@ def _parse(out_json, stdout, names):
         if r is None:
             continue
         checks = r.get("checks", [])
-        covers = [c for c in checks if c.get("category") == "cover"]
+        all_covers = [c for c in checks if c.get("category") == "cover"]
+        # covers named "must-not-reach: ..." sit behind a call that has to panic: they must be UNSATISFIABLE
+        mnr = [c for c in all_covers if (c.get("description") or "").startswith("must-not-reach")]
+        covers = [c for c in all_covers if c not in mnr]
         failed = [c for c in checks if c.get("status") == "Failure"]
         undet = [c for c in checks if c.get("status") not in ("Success", "Failure", "Unreachable", "Satisfied", "Unsatisfiable")]
         user_asserts = [c for c in checks if c.get("category") == "assertion"
@@ -60,6 +76,7 @@ def _parse(out_json, stdout, names):
             covers_total=len(covers),
             covers_satisfied=len([c for c in covers if c.get("status") == "Satisfied"]),
             covers_unsat=[c.get("description") for c in covers if c.get("status") != "Satisfied"],
+            must_not_reach_hit=[c.get("description") for c in mnr if c.get("status") == "Satisfied"],
             user_assertions=len(user_asserts),
             user_assertions_unreachable=[c.get("description") for c in user_asserts if c.get("status") == "Unreachable"],
             undetermined=len(undet),
@@ -106,11 +123,14 @@ def run_kani(harnesses, jobs=8, harness_timeout=900, extra_args=None, use_cache=
     Returns {name: result}.  result['status'] in Success | Failure | Timeout | BuildError | Missing."""
     ensure_dirs()
     ensure_playback_file()
-    ih = inputs_hash()
     results = {}
     todo = []
+    ihs = {}
     for h in harnesses:
-        key = "kani-%s-%s" % (ih[:32], h.replace("::", "."))
+        mod = h.split("::")[0]
+        if mod not in ihs:
+            ihs[mod] = inputs_hash(h)
+        key = "kani-%s-%s" % (ihs[mod][:32], h.replace("::", "."))
         c = cache_get(key) if use_cache else None
         if c is not None:
             c["cached"] = True
@@ -161,7 +181,7 @@ def run_kani(harnesses, jobs=8, harness_timeout=900, extra_args=None, use_cache=
         d["cached"] = False
         results[h] = d
         if d.get("status") == "Success" and use_cache:
-            cache_put("kani-%s-%s" % (ih[:32], h.replace("::", ".")), d)
+            cache_put("kani-%s-%s" % (ihs[h.split("::")[0]][:32], h.replace("::", ".")), d)
     try:
         os.remove(out_json)
     except OSError:
